@@ -38,7 +38,7 @@ def ev(k, text):
     except RecursionError as e:
         return ("err", "RecursionError", "")
     except BaseException as e:
-        if isinstance(e, (KeyboardInterrupt, SystemExit, MemoryError)):
+        if isinstance(e, (KeyboardInterrupt, SystemExit)):
             raise
         return ("err", type(e).__name__, str(e)[:200])
 
